@@ -1,4 +1,5 @@
 import PhysisModel.Proofs.Tex
+import PhysisModel.Proofs.BinrwTieTex
 /-!
 # C13 — textures decode to the pixels their format defines
 
@@ -273,5 +274,21 @@ theorem c13_expand_close :
     (∀ v, v < 32 → 31 * expand5 v < 255 * v + 31 ∧ 255 * v < 31 * expand5 v + 31) ∧
     (∀ v, v < 64 → 63 * expand6 v < 255 * v + 63 ∧ 255 * v < 63 * expand6 v + 63) := by
   decide
+
+end Physis.C13
+
+/-! ### T4: binrw declarations regenerated from the source
+
+`Generated/BinrwTex.lean` is re-translated from the declarations of `src/tex.rs` on every run
+(`lib/binrw2lean.py`); `Tex.readHeader` is `Layout.read` of the regenerated `TexHeader` descriptor
+(little-endian by the struct's own attribute — the ambient `.big` in the statement is deliberately the
+wrong one) followed by a pure projection (`Proofs/BinrwTieTex.lean`), for all inputs. -/
+namespace Physis.C13
+open Physis.Binrw Physis.Generated
+
+theorem c13_binrw_TexHeader (buffer : Bytes) :
+    Tex.readHeader buffer =
+      via BinrwTie.Tex.texHeaderOf (Layout.read .big BinrwTex.texHeader buffer) :=
+  BinrwTie.Tex.readHeader_eq_generated buffer
 
 end Physis.C13
